@@ -10,7 +10,7 @@ DRIVER = "C12"
 TIMEOUT = 1500
 
 RULE = ("savefiles of generated applications (C12's family: preset selectors with dependent defaults, toggles that "
-        "allocate a pointer sub-tree, enabled-by on embedded sub-trees (also by a port inside the sub-tree, and tables switched as a whole by one of their own ports: rSelf(.., rEnabledBy(x))), rDepends lists, up to 3 levels, enumerated "
+        "allocate a pointer sub-tree, enabled-by on embedded sub-trees (also by a port inside the sub-tree, and tables switched as a whole by one of their own ports: rSelf(.., rEnabledBy(x)) - one level down and, for every 4th application, on the ROOT table handed to load_from_file), rDepends lists, up to 3 levels, enumerated "
         "sub-trees) in states reached by 3..12 random parameter messages; the message lines are permuted: ALL "
         "permutations up to 6 lines (quick: always up to 4 lines, for every 4th file up to 6), random permutations "
         "beyond; plus sub-files from which depended-on lines (selectors, switches together with their sub-tree) are "
